@@ -2,6 +2,7 @@ package vsim
 
 import (
 	"fmt"
+	"strings"
 	"time"
 
 	"github.com/gammazero/nexus/v3/router"
@@ -423,6 +424,11 @@ func genSeqOps(g *Rand, fl seqFlavour, nslots, n int, thorough bool) []SOp {
 			}
 		}
 		ops = append(ops, op)
+		if op.Kind == "meta" && strings.HasPrefix(op.URI, "wamp.session.kill") && fl != seqC01 {
+			// a kill may have ended the catch-all observer: it comes back (a join of an occupied
+			// slot is skipped), so that what later session ends announce - or fail to - is seen
+			ops = append(ops, obs, SOp{Kind: "sub", Slot: 0, URI: "", Opts: wamp.Dict{"match": "prefix"}})
+		}
 	}
 	return ops
 }
